@@ -85,11 +85,13 @@ static void mode_ms(void){
   int nframes=vc_range(&r,4,16); vc_siggen g; vs_init(&g,vc_below(&r,VS_NFINITE),Fs,ch,0.4f,vc_next(&r)); int fidx=vc_below(&r,9);
   float *in=(float*)malloc(sizeof(float)*5760*ch), *out=(float*)malloc(sizeof(float)*5760*ch); opus_int16 *s16=(opus_int16*)malloc(2*5760*ch); static unsigned char one[4000];
   for(int k=0;k<nframes;k++){
-    if(vc_chance(&r,1,3)){ int br=vc_chance(&r,1,8)?OPUS_BITRATE_MAX:vc_chance(&r,1,8)?OPUS_AUTO:vc_range(&r,500,64000*ch); int vbr=vc_below(&r,2); int cx=vc_below(&r,11);
+    if(vc_chance(&r,1,3)){ int br=vc_chance(&r,1,6)?OPUS_BITRATE_MAX:vc_chance(&r,1,8)?OPUS_AUTO:vc_chance(&r,1,5)?vc_range(&r,100000*ch,300000*ch):vc_range(&r,500,64000*ch); int vbr=vc_below(&r,2); int cx=vc_below(&r,11);
       if(me){ opus_multistream_encoder_ctl(me,OPUS_SET_BITRATE(br)); opus_multistream_encoder_ctl(me,OPUS_SET_VBR(vbr)); opus_multistream_encoder_ctl(me,OPUS_SET_COMPLEXITY(cx)); if(vc_chance(&r,1,3)) opus_multistream_encoder_ctl(me,OPUS_SET_INBAND_FEC(vc_below(&r,2))); }
       else { opus_projection_encoder_ctl(pe,OPUS_SET_BITRATE(br)); opus_projection_encoder_ctl(pe,OPUS_SET_VBR(vbr)); opus_projection_encoder_ctl(pe,OPUS_SET_COMPLEXITY(cx)); } }
     if(vc_chance(&r,1,4)) fidx=vc_below(&r,9); int fs=vk_frame_samples(Fs,fidx);
     int maxb= vc_chance(&r,1,3)?vc_range(&r,1,8*streams+24):(vc_chance(&r,1,2)?4000:vc_range(&r,100,2500));
+    /* sizes at which a stream's share crosses the one-/two-byte self-delimiting length boundary (252..255 bytes per stream) */
+    if(vc_chance(&r,1,3)){ int j=1+(int)vc_below(&r,streams<4?streams:4); maxb=254*j+(int)vc_below(&r,2*j+8)-2; }
     int api=vc_below(&r,2); vs_fill(&g,in,fs); if(api) for(int i=0;i<fs*ch;i++) s16[i]=vc_f2s(in[i]);
     vc_gbuf pk=vc_galloc(maxb);
     int len= me?(api?opus_multistream_encode(me,s16,fs,pk.p,maxb):opus_multistream_encode_float(me,in,fs,pk.p,maxb)):(api?opus_projection_encode(pe,s16,fs,pk.p,maxb):opus_projection_encode_float(pe,in,fs,pk.p,maxb));
